@@ -34,6 +34,7 @@ let answer (toks : string list) : string =
   | ["fmti"; v] -> "ok " ^ x_of_bytes (format_int (zz v))
   | ["wfi"; x] -> if wellformed_int (bytes_of_x x) then "ok 1" else "ok 0"
   | ["wfd"; x] -> if wellformed_decimal (bytes_of_x x) then "ok 1" else "ok 0"
+  | ["spd"; p; sc; x] -> (match spec_parse_decimal (zz p) (zz sc) (bytes_of_x x) with Some v -> "ok " ^ string_of_zz v | None -> "err")
   | ["pd"; oc; d; p; sc; x] -> out_z (parse_decimal (oc_of oc) (dty_of d) (zz p) (zz sc) (bytes_of_x x))
   | ["fmtd"; oc; d; sc; v] -> out_bytes (format_decimal (oc_of oc) (dty_of d) (zz sc) (zz v))
   | ["pb"; x] -> (match parse_bool (bytes_of_x x) with Some true -> "ok 1" | Some false -> "ok 0" | None -> "none")
